@@ -85,6 +85,7 @@ def make_summary(nn, agg, name, post_listening=True):
         ok, det = listening(nn, st)
         snap = {"args": list(args[1:])}
         if isinstance(selfv, Ref):
+            snap["own_addr"] = st.heap[selfv.ident].fields.get(net.FN("_addr"))
             fb = st.heap[selfv.ident].fields.get("frame_buf")
             if isinstance(fb, Ref):
                 snap["message"] = st.heap[fb.ident].fields.get("message")
